@@ -18,7 +18,9 @@ RULE = (
     "Client -> driver upload), under read fragmentations {1024, 1, mixed}; 'matrix': Hypothesis payloads/formats/fragmentations x "
     "observers with every policy {unset, Never, Also, Only} of two kinds (a single-connection library client, a raw peer whose inbound "
     "bytes are inspected) x BLOB kinds {complete, empty, unset-but-published}; 'large' (thorough): 100 kB - 2 MB payloads over the BLOB "
-    "connection. Oracle: observers that enabled BLOBs hold identical bytes, format and length; the others' inbound byte stream "
+    "connection; 'burst': 2-3 BLOBs (incl. 70 kB and 150 kB, i.e. messages > 64 KiB) and a text update published back-to-back "
+    "while every drain() of the fake transports suspends for one loop iteration (back-pressure): a raw peer with policy Also must "
+    "receive every element whole, in order, bit-exact. Oracle: observers that enabled BLOBs hold identical bytes, format and length; the others' inbound byte stream "
     "contains no setBLOBVector and their mirror no payload; an upload reaches the driver element identically; a sentinel text update "
     "sent after the BLOB reaches every client whose policy admits text (nothing stalls); every Buffer.process call terminates. "
     "Non-trivial: payload non-empty and the message is longer than one 1024-byte read, or some observer has a policy other than "
@@ -27,7 +29,7 @@ RULE = (
 ASSUMPTIONS = [
     "known finding D26: on a link whose receive buffer has the 2048 junk threshold enabled (server side; single-connection client) a "
     "BLOB element longer than the threshold may be discarded as junk - matched on that necessary condition only",
-    "zero-length payload is equivalent to no BLOB",
+    "zero-length payload is equivalent to no BLOB (except that an explicitly published empty BLOB keeps its format)",
 ]
 
 THRESHOLD = 2048
@@ -223,6 +225,63 @@ def run_blob(case):
             st_.close()
 
 
+def run_burst(case):
+    """Several publications in one go (no settle in between) while every drain() suspends, as a transport under
+    back-pressure does. case: {"lens": [int...], "frags": {...}}"""
+    from indi.device import values
+
+    st_ = None
+    try:
+        st_ = stack.Stack([session.SIMPLE_SPEC, session.SECOND_SPEC], case.get("frags"), yield_drains=True)
+        drv = st_.dep.drivers[0]
+        client = st_.client
+        raw = session.Peer(_SessionShim(st_), "tcp")
+        raw.send(session.GETPROPS, settle=False)
+        raw.send(session.xml("enableBLOB", {"device": "DEV"}, text="Also"), settle=False)
+        st_.settle()
+        raw.new_output()
+        datas = [payload(n, i + 1) for i, n in enumerate(case["lens"])]
+        where = f"burst lens={case['lens']} frags={case.get('frags')}"
+
+        def publish():
+            for i, d in enumerate(datas):
+                drv.g.bl.a.value = values.BLOB(d, ".bin")
+                if i == 0:
+                    drv.g.t.b.value = "between"
+
+        st_.in_loop(publish)
+        out = raw.new_output()
+        try:
+            els = gen.split_elements(out)
+        except Exception as exc:  # noqa
+            raise Failure("burst:stream-corrupt", f"{where}: the stream to a raw peer (Also) is not a sequence of elements: {type(exc).__name__}: {str(exc)[:200]}")
+        blobs = [e for e in els if e.tag == "setBLOBVector"]
+        try:
+            got = [base64.b64decode(e[0].text or "") for e in blobs]
+        except Exception as exc:  # noqa
+            raise Failure("burst:stream-corrupt", f"{where}: a setBLOBVector in the stream to a raw peer carries undecodable text ({exc})")
+        if got != datas:
+            raise Failure("burst:payloads-differ", f"{where}: raw peer received BLOBs of {[len(g) for g in got]} bytes ({sum(a == b for a, b in zip(got, datas))} intact), published {[len(d) for d in datas]}")
+        if [e.tag for e in els] != ["setBLOBVector", "setTextVector"] + ["setBLOBVector"] * (len(datas) - 1):
+            raise Failure("burst:order", f"{where}: {[e.tag for e in els]}")
+        v = client["DEV"]["BLB"]["A"].value
+        vb = b"" if (v is None or isinstance(v, str)) else v.binary
+        if vb != datas[-1]:
+            raise Failure("burst:blob-connection:payload-differs", f"{where}: Client holds {len(vb)} bytes, last published {len(datas[-1])}")
+        st_.in_loop(lambda: setattr(drv.g.bl.a, "value", values.BLOB(b"after", ".bin")))
+        v = client["DEV"]["BLB"]["A"].value
+        if v is None or isinstance(v, str) or v.binary != b"after":
+            raise Failure("burst:later-blob-lost", f"{where}: a BLOB published after the burst did not arrive")
+        return len(datas) >= 2 and max(case["lens"]) > 50_000
+    finally:
+        if st_ is not None:
+            st_.close()
+
+
+def check_burst(case):
+    return Info(nontrivial=run_burst(case), labels=[f"burst-of-{len(case['lens'])}", "max>64KiB-message" if max(case["lens"]) > 50_000 else "small"])
+
+
 class _SessionShim:
     """session.Peer expects an object with .net/.loop/.settle()"""
 
@@ -257,7 +316,7 @@ def check_sizes(case):
     return Info(n_eval=n, n_nontrivial=nt, label_counts={case["dir"]: n})
 
 
-SUBCHECKS = {"sizes": check_sizes, "one": check_one, "matrix": check_one, "large": check_one}
+SUBCHECKS = {"sizes": check_sizes, "one": check_one, "matrix": check_one, "large": check_one, "burst": check_burst}
 
 FRAGSETS = [
     {"c2s": [1024], "s2c": [1024], "b2s": [1024], "s2b": [1024]},
@@ -321,6 +380,9 @@ def run(ctx):
     cnt = ctx.each("sizes", size_blocks(ctx.tier), check_sizes, stop_after=4, timeout=900)
     ctx.exhaustive["sizes"] = {"complete": True, "n_blocks": cnt, "bound": ("every length 0..1700" if ctx.tier == "thorough" else "every length 0..64 and +-6 around 660/768/1365/1410/1536") + " x {down, up} x 3 fragmentations; plus every (length, format) whose message is an exact multiple of the 1024-byte read size"}
     ctx.hyp("matrix", matrix_case, check_one, ctx.scale(120, 2500), timeout=120)
+    bursts = [{"lens": lens, "frags": f} for lens in ([70_000, 10], [10, 70_000, 10], [150_000, 70_000], [3, 2, 1], [1500, 1500, 1500])
+              for f in (FRAGSETS[0], {"c2s": [1024], "s2c": [1000, 24], "b2s": [1024], "s2b": [4096, 1, 1024]})]
+    ctx.each("burst", bursts, check_burst, stop_after=2, timeout=600)
     if ctx.tier == "thorough":
         big = [{"dir": "down", "len": L, "seed": 3, "fmt": ".fits", "frags": f, "observers": [{"type": "raw", "policy": "Only", "frag": [1024]}, {"type": "raw", "policy": None, "frag": [1024]}]}
                for L in (100_000, 250_000, 1_000_000, 2_000_000) for f in (FRAGSETS[0], {"c2s": [1024], "s2c": [1024], "b2s": [1024], "s2b": [4096, 1, 1024]})]
